@@ -25,6 +25,11 @@ type PropSpec struct {
 		Instances   []string `json:"instances,omitempty"`    // bounded instances (contract `instance` clauses) to verify in addition
 		NoUnbounded bool     `json:"no_unbounded,omitempty"` // verify only the bounded instances of this function
 	} `json:"functions"`
+	Sweep *struct {
+		Pkgs  []string `json:"pkgs"`  // package dirs whose functions are all swept (zero annotation)
+		Kinds []string `json:"kinds"` // safety obligation families kept: assert, index, slice, div, panic, ...
+	} `json:"sweep,omitempty"`
+	SweepExclude   []string `json:"sweep_exclude,omitempty"`
 	Lemmas         []string `json:"lemmas,omitempty"`
 	Structural     []string `json:"structural,omitempty"` // names of structural (enumeration) obligations
 	Level          string   `json:"level"`
@@ -142,6 +147,7 @@ func cmdCheck(args []string) int {
 	}
 	var obls []*Obligation
 	var txs []*FnTx
+	nSwept, nSweptObl := 0, 0
 	fnInfo := []map[string]interface{}{}
 	notes := map[string]int{}
 	broken := []string{}
@@ -158,6 +164,45 @@ func cmdCheck(args []string) int {
 			jobs = append(jobs, job{f.Key, in, nil, nil})
 		}
 	}
+	sweepFns := map[string]bool{}
+	if ps.Sweep != nil {
+		keys := []string{}
+		for k, fn := range s.fns {
+			if fn.Pkg == nil || len(fn.Blocks) == 0 || fn.Synthetic != "" {
+				if !(fn.Pkg == nil && fn.Parent() != nil && len(fn.Blocks) > 0) {
+					continue
+				}
+			}
+			pk := fn.Pkg
+			if pk == nil && fn.Parent() != nil {
+				pk = fn.Parent().Pkg
+			}
+			if pk == nil {
+				continue
+			}
+			for _, d := range ps.Sweep.Pkgs {
+				if pk.Pkg.Path() == pkgPath(d) {
+					keys = append(keys, k)
+				}
+			}
+		}
+		sort.Strings(keys)
+		for _, k := range keys {
+			if s.cs.Fns[k] == nil {
+				s.cs.Fns[k] = &FnContract{Key: k, NoPanic: true, NoPanicOwn: true, ModAll: true, HasMod: true, Loops: map[int]*LoopSpec{}, Sweep: true}
+			}
+			already := false
+			for _, j := range jobs {
+				if j.key == k {
+					already = true
+				}
+			}
+			if !already {
+				jobs = append(jobs, job{key: k})
+				sweepFns[k] = true
+			}
+		}
+	}
 	for _, f := range jobs {
 		tx, err := s.verifyFnInstance(f.key, f.inst)
 		if err != nil {
@@ -165,6 +210,10 @@ func cmdCheck(args []string) int {
 			continue
 		}
 		for _, u := range tx.unsupported {
+			if sweepFns[f.key] {
+				notes["sweep: "+f.key+": construct outside the verified subset (value unconstrained): "+u]++
+				continue
+			}
 			broken = append(broken, f.key+": outside the verified subset: "+u)
 		}
 		txs = append(txs, tx)
@@ -176,6 +225,20 @@ func cmdCheck(args []string) int {
 			if strings.HasPrefix(o.Label, "t3_") && *tier != "thorough" {
 				continue
 			}
+			if sweepFns[f.key] {
+				// zero-annotation sweep: only the selected safety families (no covers, no frames)
+				keep := false
+				if o.Kind == "safe" {
+					for _, k := range ps.Sweep.Kinds {
+						if strings.HasPrefix(o.Label, k+"@") {
+							keep = true
+						}
+					}
+				}
+				if !keep || matchAny(ps.SweepExclude, o.Name) {
+					continue
+				}
+			}
 			if len(f.labels) > 0 && (o.Kind == "post" || o.Kind == "assert" || o.Kind == "inv-init" || o.Kind == "inv-pres") && !matchAny(f.labels, o.Label) {
 				continue
 			}
@@ -184,6 +247,11 @@ func cmdCheck(args []string) int {
 		}
 		for k, v := range tx.notes {
 			notes[k] += v
+		}
+		if sweepFns[f.key] {
+			nSwept++
+			nSweptObl += n
+			continue
 		}
 		c := s.cs.Fns[f.key]
 		info := map[string]interface{}{"function": f.key, "obligations": n}
